@@ -1,4 +1,5 @@
-(* C08, heap statements: corollaries of Proof/RVKSimTop.rv_codegen_simulates.
+(* CHAIN VERSION of Proof/RVHSimCor.v (all statement forms).
+   C08, heap statements: corollaries of Proof/RVKSimTop.rv_codegen_simulates.
    - for runs that end with a result or an undefined operation the argument count is right (no arity
      hypothesis);
    - for outputs of the linearization pass the two structural checks (`lin_check_prog`, `ann_check_prog`)
